@@ -80,7 +80,7 @@ def _make_p1(param):
     variant, fixed = param
 
     def p1(validate: bool, dry: bool, rs_dry: bool, two_runs: bool, ctx_has_addend: bool, rs_has_value: bool, f0: bool, f1: bool, yaml_dry_present: bool, yaml_dry_value: bool,
-           yaml_max_present: bool, yaml_max: int, cli_max_present: bool, cli_max: int, addend: int, x0: int, x1: int):
+           yaml_max_present: bool, yaml_max: int, cli_max_present: bool, cli_max: int, addend: int, x0: int, x1: int, via_file: bool):
         yaml_dry_present = fixed.get("ydp", yaml_dry_present)
         yaml_max_present = fixed.get("ymp", yaml_max_present)
         cli_max_present = fixed.get("cmp", cli_max_present)
@@ -97,12 +97,12 @@ def _make_p1(param):
         if cli_max_present:
             assume(0 <= cli_max <= 3)
         return _p1_body(variant, validate, dry, rs_dry, ctx_has_addend, rs_has_value, 2 if two_runs else 1, [f0, f1],
-                        (yaml_dry_value if yaml_dry_present else None), (yaml_max if yaml_max_present else None), (cli_max if cli_max_present else None), addend, [x0, x1])
+                        (yaml_dry_value if yaml_dry_present else None), (yaml_max if yaml_max_present else None), (cli_max if cli_max_present else None), addend, [x0, x1], True if via_file else False)
 
     return p1
 
 
-def _p1_body(variant, validate, dry, rs_dry, ctx_has_addend, rs_has_value, n, fires, yaml_dry, yaml_max, cli_max, addend, xs):
+def _p1_body(variant, validate, dry, rs_dry, ctx_has_addend, rs_has_value, n, fires, yaml_dry, yaml_max, cli_max, addend, xs, via_file=False):
     from vt import cliharness, lib
     from vt.memtrace import MemTrace
 
@@ -114,7 +114,11 @@ def _p1_body(variant, validate, dry, rs_dry, ctx_has_addend, rs_has_value, n, fi
     flags: Dict[str, Any] = {"validate": validate, "dry_run": dry, "run_space_dry_run": rs_dry}
     if cli_max is not None:
         flags["run_space_max_runs"] = cli_max
-    rc = cliharness.run_cli(cfg, trace=tr, ctx=({"addend": addend} if ctx_has_addend else {}), **flags)
+    rs_file = None
+    if via_file:
+        # the same run space supplied through --run-space-file (wrapped in a run_space: key) instead of the inline block
+        rs_file = {"run_space": cfg.pop("run_space")}
+    rc = cliharness.run_cli(cfg, trace=tr, ctx=({"addend": addend} if ctx_has_addend else {}), rs_file=rs_file, **flags)
     log = list(lib.LOG)
     # ---------------- oracle
     eff_max = cli_max if cli_max is not None else (yaml_max if yaml_max is not None else 1000)
@@ -174,7 +178,7 @@ def _replay_p1(param, a):
     g = lambda k: fixed.get(k, a[k])
     ydp, ymp, cmp_ = fixed.get("ydp", a["yaml_dry_present"]), fixed.get("ymp", a["yaml_max_present"]), fixed.get("cmp", a["cli_max_present"])
     v = _p1_body(variant, g("validate"), g("dry"), g("rs_dry"), a["ctx_has_addend"], a["rs_has_value"], 2 if g("two_runs") else 1, [a["f0"], a["f1"]],
-                 (a["yaml_dry_value"] if ydp else None), (a["yaml_max"] if ymp else None), (a["cli_max"] if cmp_ else None), a["addend"], [a["x0"], a["x1"]])
+                 (a["yaml_dry_value"] if ydp else None), (a["yaml_max"] if ymp else None), (a["cli_max"] if cmp_ else None), a["addend"], [a["x0"], a["x1"]], a.get("via_file", False))
     return C04._wrap(v)
 
 
@@ -197,7 +201,7 @@ def obligations(tier: str) -> List[Ob]:
             params.append((v, {}))
     return [
         Ob("C17.P1", _make_p1, _replay_p1, params=params, budget=1200, per_path=120,
-           bound="8 configuration variants (the two executable ones sharded by --validate/--dry-run/--run-space-dry-run/number of runs; the rejected ones with those flags symbolic too); symbolic: --run-space-dry-run, --context key present, run-space key present, 1 or 2 planned runs, failing flags per run, YAML dry_run present/value, YAML max_runs present/value (0..3), --run-space-max-runs present/value (0..3), context and payload values",
+           bound="8 configuration variants (the two executable ones sharded by --validate/--dry-run/--run-space-dry-run/number of runs; the rejected ones with those flags symbolic too); symbolic: run space inline or through --run-space-file, --run-space-dry-run, --context key present, run-space key present, 1 or 2 planned runs, failing flags per run, YAML dry_run present/value, YAML max_runs present/value (0..3), --run-space-max-runs present/value (0..3), context and payload values",
            targets=["semantiva/cli/__init__.py:_run", "semantiva/inspection/builder.py:build_pipeline_inspection", "semantiva/inspection/validator.py:validate_pipeline", "semantiva/execution/run_space.py:expand_run_space", "semantiva/configurations/load_pipeline_from_yaml.py:parse_pipeline_config"], stubs=list(STUBS) + cliharness.STUBS + ["injective-hash model for json/hashlib/uuid (identity values are not the subject here; keeps run values symbolic)"]),
     ]
 
